@@ -262,6 +262,11 @@ func (c *Controller) find(name string) *gstate {
 	return nil
 }
 
+// StuckTotal counts executions abandoned because a goroutine blocked outside the controller's view
+// (a real mutex or channel operation that the instrumentation does not know). Each costs the 5 s
+// watchdog and leaks its goroutines, so the runners stop exploring after a few.
+var StuckTotal int
+
 // Run drives all controlled goroutines to completion / quiescence under the strategy.
 func (c *Controller) Run(s Strategy) {
 	prev := ""
@@ -305,6 +310,7 @@ func (c *Controller) Run(s Strategy) {
 		case <-c.arrived:
 		case <-time.After(5 * time.Second):
 			c.End = "stuck:" + ch.Tid + "@" + point
+			StuckTotal++
 			return
 		}
 		c.mu.Lock()
